@@ -96,7 +96,7 @@ def _init_checks(ctx, N, cls, pkg, axis, S, name, pcov):
     P = ctx.P
     m = P.method(cls, "_init_greedy_search")
     site = ctx.site(m)
-    variants = [("int", index("i0", S))]
+    variants = [("int", index("i0", S)), ("npint", index("i0", S, labels=("numpy-scalar",)))]
     if not pcov:
         variants.append(("list2", None))
     variants.append(("random", "random"))
@@ -166,7 +166,7 @@ def _init_checks(ctx, N, cls, pkg, axis, S, name, pcov):
         selr = ctx.attr(sr, orr, "selected_idx_")
         ok_push = len(pushed) == want_n and selr is not None and all(p_ is not None and N.nf(p_.term) == N.nf(T("getitem", selr.term, const(k_))) for k_, p_ in enumerate(pushed))
         ctx.ob("R-INIT", f"{name}.{pkg}.the distance table is initialised from the stored initial indices, in order[{vname}]", ok_push, f"pushed {[repr(p_.term)[:60] if p_ is not None else None for p_ in pushed]} ; stored {selr.term!r}"[:300], site, cfg)
-        if vname in ("int", "list2"):
+        if vname in ("int", "npint", "list2"):
             t = repr(sel.term)
             # exact: selected_idx_ = zeros with slot k := i_k
             want = T("store", T("astype", T("zeros", T("dim", Dim.of("S"))), "int"), const(0), i0.term)
